@@ -20,6 +20,16 @@ CHECKS.update({
  'C08': (E1, 'ALL full-length index tuples over the per-mode alphabet {0,-1,mid,:,1:,0:1,::2,:-1} with 0..2 None insertions at every position and leading/trailing Ellipsis, on every structure of order 1..3 (4 thorough), plus operator (int,int)/(slice,slice) pairs and apply_mask with every 1-/2-row index matrix: shape (every axis) and bits equal dense[index].',
          'partial index tuples (shorter than the order, no Ellipsis) not enumerated; int64 index matrices', '§5 C08'),
 })
+CHECKS.update({
+ 'C09': (E1, 'cat (every axis, 2..3 operands with distinct sizes), pad (every trailing subset of modes, widths {0,1,2}^2, fill 0 and non-zero, tensors and operators with the block oracle of the statement), diag (both directions, rectangular too), mprod (every mode and every subset/order of modes), to_ttm, conj, clone on all structures of order 1..3 (4 thorough), bit-equal to the dense operation.',
+         'operator pad: padded diagonal entries outside the two corner blocks are unconstrained by the statement and not compared', '§5 C09'),
+ 'C18': (E1, 'Every public entry point x every incompatibility class (mismatch at each position incl. against size-1 modes, order/kind/type mismatch, out-of-range index/axis/mode/dim, element-count mismatch, bad rank lists, mis-shaped cores) on orders 1..3: must raise (validity decided by the dense model), documented cases must raise a library exception type, operands unchanged.',
+         'documented-case table transcribed from docstrings; dense-valid but undocumented arguments only need to raise or agree', '§5 C18'),
+ 'C19': (E1, 'save->load, clone, detach, to(dtype), cpu, numpy on all structures order 1..4 (6 thorough) x dtype x provenance (leaf, TT-SVD, truncated TT-SVD, slice view, t(), conj(), detached, rounded, summed): bit-identical cores and metadata, disjoint storage for clone, source untouched.',
+         'CPU only', '§5 C19'),
+ 'C20': (E1, 'All size_in/size_out lists of 1..3 (4 thorough) modes with every singleton substitution, all rank profiles over {1,2,3}, batch ranks 0..3, float32/float64, He/Glo: forward value, parameter registration and all parameter gradients equal those of the dense affine map contracted from the layer\'s own cores.',
+         'bias overwritten with a non-zero tensor; torch RNG seeded', '§5 C20'),
+})
 PENDING = {}
 ALL = ['C%02d' % i for i in range(1, 21)]
 
